@@ -44,7 +44,7 @@ def main():
         und = None
         try:
             j = json.load(open(os.path.join(ev, pid + ".json")))
-            und = len(j.get("undecided") or [])
+            und = len((j.get("coverage") or {}).get("undecided") or [])
         except Exception:
             pass
         checks[pid] = {"exit": c.returncode, "violations": [re.sub(r"replay=\S*/", "replay=", v) for v in viol][:12], "undecided": und,
